@@ -399,7 +399,8 @@ def wellformed_files(rng, count, simple=False, contexts=True, bad_bytes=0.0):
         if with_header:
             hv = G.header_value(rng, charset, style)
             head = (None, b'', None, [hv])
-            if rng.random() < 0.05:      # a plural header entry (legal; the charset is still searched in the whole value)
+            if rng.random() < 0.05 and style != 'end':      # a plural header entry (legal; the charset is searched in the whole value,
+                                                            # so with style 'end' the NUL and the next form would join the name: excluded)
                 head = (None, b'', b'pl', [hv, b'x'])
             cat = [head] + cat
         lay = G.gen_layout(rng, simple=simple)
@@ -428,8 +429,36 @@ def malformed_stream(rng, files, per_file_flips, n_random, all_truncations=True,
                     out.append(G.set_word(data, at, v))
         out.extend(G.flips(rng, data, per_file_flips))
     out.extend(G.random_behind_magic(rng, n_random))
+    out.extend(structured_malformed(rng, max(20, n_random // 20)))
     out.extend([b'', b'\xde', b'\xde\x12\x04', G.LE_MAGIC, G.BE_MAGIC, b'\x00' * 28, G.LE_MAGIC + b'\0' * 16, G.BE_MAGIC + b'\0' * 24,
                 G.LE_MAGIC + struct.pack('<6I', 1, 0, 28, 28, 0, 0), G.LE_MAGIC + struct.pack('<6I', 1, 0, 28, 28, 0, 0) + b'\0' * 8 + b'\1\0\0\0'])
+    return out
+
+def structured_malformed(rng, count):
+    """catalogs broken in one structural respect: order, NUL structure, duplicate keys (legal for this reader)"""
+    out = []
+    for _ in range(count):
+        cat, _cs = G.gen_catalog(rng, 'UTF-8', n=rng.randint(2, 5))
+        cat = [(None, b'', None, [G.header_value(rng, 'UTF-8', 'std')])] + cat
+        how = rng.choice(['swap', 'nul-key', 'nul-plural', 'nul-value', 'dup', 'rev', 'ctx-only-order'])
+        i = rng.randrange(1, len(cat))
+        c, m, p, f = cat[i]
+        if how == 'swap' and len(cat) > 2:
+            j = rng.randrange(1, len(cat))
+            cat[i], cat[j] = cat[j], cat[i]
+        elif how == 'rev':
+            cat = cat[:1] + cat[:0:-1]
+        elif how == 'nul-key':
+            cat[i] = (c, m + b'\0' + b'x', b'pl', f)
+        elif how == 'nul-plural':
+            cat[i] = (c, m, b'a\0b', f)
+        elif how == 'nul-value':
+            cat[i] = (c, m, None, [f[0], b'extra'])
+        elif how == 'dup':
+            cat.insert(i, cat[i])
+        elif how == 'ctx-only-order':
+            cat[i] = (b'zzz', m, p, f)      # a context changes the key, hence the order
+        out.append(G.serialize(cat, G.gen_layout(rng)))
     return out
 
 def run_parse_stream(chk, name, datas, encodings=(None,)):
